@@ -1540,6 +1540,10 @@ static void gen(const char *prop, RunSpec &spec)
 			else if (k < 86) p.add(0, K_S_CLOSED_RETRY, T_CREATED, conn, 0, r.range(1, 3), r.below(4));
 			else if (k < 92) p.add(0, K_S_DESTROY, T_TICK, -1, r.range(2, 40));
 			else p.add(0, K_S_STATS, T_TICK, -1, r.range(1, 30));
+		} else if (w == 3 && k >= 70 && k < 86) {
+			// the application drops a connection on its own initiative (from connection_created, msg_process or a tick) while
+			// clients - and the server - die around it: whoever is left must still clean everything up
+			p.add(0, K_S_DISCONNECT, r.chance(1, 2) ? T_CREATED : r.chance(1, 2) ? T_MSG : T_TICK, conn, r.range(0, 12), 0, r.below(3));
 		} else if (w == 3 && k < 70) {
 			// the application keeps a reference of its own on a connection for a while: a dead client's connection then
 			// lingers (shutting down, still listed) while other clients come and go
